@@ -379,6 +379,19 @@ def build_replay():
     return p.returncode == 0
 
 
+def tree_changed_since_replay_build():
+    """the replay binary must be built from /repo's current working tree"""
+    try:
+        t = os.path.getmtime(REPLAY)
+    except OSError:
+        return True
+    for d, _, fs in os.walk(os.path.join(REPO, "src")):
+        for f in fs:
+            if os.path.getmtime(os.path.join(d, f)) > t:
+                return True
+    return os.path.getmtime(os.path.join(REPO, "Cargo.toml")) > t
+
+
 def replay_run(scenario, tape):
     p = sh([REPLAY, "run", scenario, json.dumps(tape)])
     try:
@@ -410,6 +423,8 @@ def load_findings():
 
 
 def finding_matches(f, unit, e):
+    if f.get("kind") == "replay-only":
+        return False
     if f.get("property") != e.get("property"):
         return False
     # template / fn / site are regular expressions (full match): one entry covers the arities of a macro
@@ -542,6 +557,16 @@ def main():
                 d = replay_run(r["scenario"], r["tape"])
                 ok = bool(d) and any(r["expect"] in v["what"] for v in d.get("violations", []))
                 print(f"  replayed {f.get('id')} on the real crate: {r['scenario']} {r['tape']} -> {'reproduced' if ok else 'NOT reproduced'}")
+    # findings outside the verified profiles: reproduced on the real crate on every run
+    ro = [f for f in load_findings().get("findings", []) if f.get("kind") == "replay-only" and f.get("property") == a.property]
+    if ro and os.path.exists(REPLAY) or (ro and build_replay()):
+        if tree_changed_since_replay_build():
+            build_replay()
+        for f in ro:
+            r = f["replay"]
+            d = replay_run(r["scenario"], r["tape"])
+            if d and any(r["expect"] in v["what"] for v in d.get("violations", [])):
+                print(f"KNOWN-FINDING: property={a.property} {f.get('id','')} {f.get('what','')} [reproduced on the real crate: {r['scenario']} {r['tape']}]")
     seen = set()
     for (u, e, f) in known:
         k = (f.get("id"), f.get("what"))
